@@ -702,7 +702,9 @@ def static_int(body, e, depth=0):
         t = body.term(e[1])
         n = callee_name(t)
         ga = t.get("generic_args", [])
-        if n in ("core::mem::size_of", "core::mem::align_of") and len(ga) == 1 and not t["args"]:
+        if n in ("core::mem::size_of_val", "core::mem::align_of_val") and len(ga) == 1 and len(t["args"]) == 1 and (ga[0] in _PRIM_SIZE or ga[0] in ("usize", "isize")):
+            n = n[:-4]      # of a sized primitive: the size of its type
+        if n in ("core::mem::size_of", "core::mem::align_of") and len(ga) == 1 and (not t["args"] or callee_name(t) != n):
             ty = ga[0]
             if ty in ("usize", "isize"):
                 return body.facts.ptr_bytes
